@@ -1,5 +1,5 @@
 (* C04: the statements.  This file contains nothing but the property theorems. *)
-From Maddy Require Import Lib.Base Pipeline.Route Pipeline.Spec Pipeline.Lemmas Pipeline.SpecSel Pipeline.Whole.
+From Maddy Require Import Lib.Base Pipeline.Route Pipeline.Spec Pipeline.Lemmas Pipeline.SpecSel Pipeline.Whole Pipeline.Single.
 Local Open Scope N_scope.
 
 (* First declaration wins, for every configuration: the destination table of a parsed source
@@ -85,6 +85,26 @@ Theorem C04_route_eq_spec :
     spec_message flk dflk valid_rule split_dom tbl rw_s rw_r rf nodes from tos.
 Proof. intros. eapply message_eq_spec; [eapply wf_deepb_sound|]; eassumption. Qed.
 Print Assumptions C04_route_eq_spec.
+
+(* One recipient, one block: in a scope without rewrites of its own, the recipient is handed - under
+   each address the selected block's rewrites produce, 1-to-N - to every target of that block, in
+   order, with the sender the scope was started with, and no other target sees it; a rejecting block
+   answers with its configured reply and no target sees the recipient. *)
+Theorem C04_single_block_delivers_to_exactly_its_targets :
+  forall flk split_dom tbl rw_s rw_r f sin per d rin rper rd from to rm ids l3,
+    select_rcpt flk split_dom tbl (Src [] rin rper rd) to = SBlock (Rblk rm None (map TLeaf ids)) ->
+    group_rcpt rw_r rm to = Some l3 ->
+    add_rcpt flk split_dom tbl rw_s rw_r (S f) (Pipe [] sin per d) (Src [] rin rper rd) from to =
+    (flat_map (fun to3 => map (fun id => (id, from, to3)) ids) l3, None).
+Proof. exact add_rcpt_leaf_block. Qed.
+Print Assumptions C04_single_block_delivers_to_exactly_its_targets.
+
+Theorem C04_rejecting_block_reaches_no_target :
+  forall flk split_dom tbl rw_s rw_r f sin per d rin rper rd from to rm c tg,
+    select_rcpt flk split_dom tbl (Src [] rin rper rd) to = SBlock (Rblk rm (Some c) tg) ->
+    add_rcpt flk split_dom tbl rw_s rw_r (S f) (Pipe [] sin per d) (Src [] rin rper rd) from to = ([], Some c).
+Proof. exact add_rcpt_reject_block. Qed.
+Print Assumptions C04_rejecting_block_reaches_no_target.
 
 (* Matching sees addresses and rules only through their lookup keys: two spellings with the
    same key select the same block, and two rule lists with the same normal forms declare the
